@@ -40,7 +40,11 @@ theorem payloader_valid (c : EncCfg) (f : Bytes) (hc : ValidCfg c) (hf : 0 < f.l
   have hm : c.max % 65536 = c.max := Nat.mod_eq_of_lt (by omega)
   have hmin : ¬ (min ((c.max : Int) - 1) (f.length : Int) ≤ 0) := by omega
   have hk : ((c.max : Int) - 1).toNat = c.max - 1 := by omega
-  simp only [payloader, hm, CodecAv1vp.vp8HeaderSize, Nat.cast_one, hmin, if_false, hk, payloads]
+  unfold payloader payloads
+  simp only [hm]
+  have e1 : ((c.max : Int) - ((CodecAv1vp.vp8HeaderSize : Nat) : Int)) = (c.max : Int) - 1 := rfl
+  rw [e1, if_neg hmin, hk]
+  rfl
 
 theorem encode_valid (e : Enc) (f : Bytes) (hc : ValidCfg e.cfg) (hf : 0 < f.length) :
     encode e f = some ({ e with seq := e.seq + UInt16.ofNat (payloads (e.cfg.max - 1) f).length },
@@ -200,7 +204,7 @@ theorem c08_inv_decode (d : Dec) (p : Pkt) (hi : Inv d) : Inv (decode d p).1 := 
   · rename_i d1 heq; rw [heq] at h; exact h
   · rename_i d1 chunk heq
     rw [heq] at h
-    simp only
+    simp only at h ⊢
     split
     · exact inv_reset d1
     · rename_i hle
@@ -230,12 +234,18 @@ theorem c08_out_le (d : Dec) (p : Pkt) (f : Bytes) (h : (decode d p).2 = .ok f) 
 
 /-! ## C03 / C07 -/
 
+theorem tb_10_80 : tb 0x10 0x80 = false := by decide
+theorem tb_10_10 : tb 0x10 0x10 = true := by decide
+theorem pid_10 : ((0x10 : UInt8) &&& 0x07).toNat = 0 := by decide
+theorem tb_00_80 : tb 0 0x80 = false := by decide
+theorem tb_00_10 : tb 0 0x10 = false := by decide
+theorem pid_00 : ((0 : UInt8) &&& 0x07).toNat = 0 := by decide
+
 theorem unmarshal_first (c : Bytes) : unmarshal ((0x10 : UInt8) :: c) = some { s := true, pid := 0, payload := c } := by
-  simp [unmarshal, tb]
-  decide
+  simp [unmarshal, tb_10_80, tb_10_10]
 
 theorem unmarshal_next (c : Bytes) : unmarshal ((0 : UInt8) :: c) = some { s := false, pid := 0, payload := c } := by
-  simp [unmarshal, tb]
+  simp [unmarshal, tb_00_80, tb_00_10]
 
 /-- first packet of a frame: from ANY state the decoder restarts with exactly this chunk -/
 theorem decode_first (d : Dec) (pt : UInt8) (sq : UInt16) (ssrc : UInt32) (m : Bool) (c : Bytes)
@@ -317,7 +327,7 @@ theorem c03_roundtrip (e e' : Enc) (f : Bytes) (ps : List Pkt) (d : Dec)
   have hc0 : 0 < c0.length := (hmem c0 (by simp)).1
   have htot : c0.length + totalLen cs = f.length := by
     have := congrArg List.length hfl
-    simpa [flatten_length] using this
+    simpa [totalLen] using this
   have hpl : payloads (e.cfg.max - 1) f = ((0x10 : UInt8) :: c0) :: cs.map fun c => (0 : UInt8) :: c := by
     simp [payloads, hsplit]
   rw [hpl]
